@@ -115,7 +115,20 @@ def expect(nodes, bf, idx=()):
         k = nd[0]
         if k == "f":
             _, name, typ, scale, raw = nd
-            if scale is None:
+            if name.startswith("_HP"):
+                # documented special case (release notes 1.2.x): the scaled value of
+                # _HPx is added to the earlier attribute x and _HPx is not exposed
+                tgt = name[3:] + sfx
+                for i, (n0, sp) in enumerate(out):
+                    if n0 == tgt:
+                        terms = list(sp[2]) if sp[0] == "sum" else (
+                            [(sp[2], sp[3])] if sp[0] == "scaled" else [(sp[2], 1)])
+                        terms.append((raw, 1 if scale is None else scale))
+                        out[i] = (n0, ("sum", typ, terms))
+                        break
+                else:
+                    out.append((name + sfx, ("scaled", typ, raw, 1 if scale is None else scale)))
+            elif scale is None:
                 out.append((name + sfx, ("val", typ, codec.value_of(typ, raw))))
             else:
                 out.append((name + sfx, ("scaled", typ, raw, scale)))
@@ -155,6 +168,12 @@ def value_matches(actual, spec, decimals_tol=Fraction(1, 2 * 10**12)):
         if isinstance(want, int):
             return isinstance(actual, int) and actual == want
         return type(actual) is type(want) and actual == want
+    if kind == "sum":
+        if isinstance(actual, bool) or not isinstance(actual, (int, float)) or not math.isfinite(actual):
+            return False
+        want = sum(Fraction(r) * Fraction(sc) for r, sc in spec[2])
+        slack = Fraction(8 * max(_ulp(float(want)), _ulp(float(actual))))
+        return abs(Fraction(actual) - want) <= (len(spec[2]) + 1) * decimals_tol + slack
     _, typ, raw, scale = spec
     if isinstance(actual, bool) or not isinstance(actual, (int, float)):
         return False
@@ -168,6 +187,8 @@ def value_matches(actual, spec, decimals_tol=Fraction(1, 2 * 10**12)):
 def describe(spec):
     if spec[0] == "val":
         return repr(spec[2])
+    if spec[0] == "sum":
+        return " + ".join(f"{r}*{sc}" for r, sc in spec[2])
     return f"{spec[2]}*{spec[3]}"
 
 
@@ -229,12 +250,12 @@ def audit(defn, forbidden_names=()):
                         err("bad-type", f"flag {k}.{fk}: {ft!r}")
                         continue
                     total += int(ft[1:])
-                    names_bf1.append((fk, depth))
+                    names_bf1.append((fk, depth, fk.startswith("reserved")))
                     if depth == 0:
                         seen_top.append((fk, "flag", ft))
                 if total > 8 * codec.tsize(xt):
                     err("flags-overflow", f"{k}: {total} bits in {xt}")
-                names_bf0.append((k, depth))
+                names_bf0.append((k, depth, False))
             elif is_group_def(v):
                 n, sub = v
                 if in_none:
@@ -265,8 +286,8 @@ def audit(defn, forbidden_names=()):
                     err("bad-scaled", f"{k}: scaled {v[0]}")
                 if not (math.isfinite(v[1]) and v[1] != 0):
                     err("bad-scaled", f"{k}: scale {v[1]!r}")
-                names_bf1.append((k, depth))
-                names_bf0.append((k, depth))
+                names_bf1.append((k, depth, False))
+                names_bf0.append((k, depth, False))
                 if depth == 0:
                     seen_top.append((k, "attr", v))
             else:
@@ -274,8 +295,8 @@ def audit(defn, forbidden_names=()):
                     continue
                 if v == "CH" and (depth != 0 or len(items) != 1):
                     err("ch-not-alone", k)
-                names_bf1.append((k, depth))
-                names_bf0.append((k, depth))
+                names_bf1.append((k, depth, False))
+                names_bf0.append((k, depth, False))
                 if depth == 0:
                     seen_top.append((k, "attr", v))
 
@@ -283,19 +304,25 @@ def audit(defn, forbidden_names=()):
     walk(defn, 0, n1, n0, top, False)
 
     for label, names in (("parsebitfield=1", n1), ("parsebitfield=0", n0)):
-        seen = set()
-        for nm, depth in names:
+        seen = {}
+        for nm, depth, resflag in names:
             # Members of groups are exposed as name_NN (one suffix per nesting
             # level), so two fields collide exactly when they share name and
-            # nesting depth - whichever groups they sit in.
-            if (nm, depth) in seen:
+            # nesting depth - whichever groups they sit in.  Two reserved *bit
+            # flags* of one name are harmless: reserved flags are never exposed
+            # and never reported by the parser; a reserved flag that shares its
+            # name with an attribute is not (the attribute's keyword value would
+            # be read into the bitfield).
+            if (nm, depth) in seen and not (resflag and seen[(nm, depth)]):
                 err("duplicate-name", f"{nm!r} at depth {depth} ({label})")
-            seen.add((nm, depth))
-    for nm, depth in set(n1) | set(n0):
+            seen[(nm, depth)] = resflag and seen.get((nm, depth), True)
+    for nm, depth, _r in set(n1) | set(n0):
         if depth == 0 and nm in forbidden_names:
             err("shadows-message-attribute", nm)
         if nm.startswith("_"):
-            err("private-name", nm)
+            # documented exception: _HP<name of an attribute of the same message>
+            if not (nm.startswith("_HP") and any(o[0] == nm[3:] and o[1] == depth for o in n1)):
+                err("private-name", nm)
     if len(none_groups) > 1:
         err("multiple-none-groups", ",".join(g[0] for g in none_groups))
     for g, depth, last in none_groups:
